@@ -66,4 +66,56 @@ Section Canon.
     ++ flat_map (fun rid => if Nat.leb 3 (length (e_of rid)) then split_tail rid 1 (tl (e_of rid)) else []) ids
     ++ flat_map (fun rid => map (fun c => mkC (NOrig (origin rid)) (head_rhs (snd c)) (ARule rid) (fst c))
                                 (chains (S (length rules)) rid)) ids.
+
+  (* ---- decidable forms -------------------------------------------------------------------------- *)
+  Fixpoint chainb (rid : nat) (sk : list (cnt * calias)) : option nat :=
+    if negb (Nat.ltb rid (length rules)) then None else
+    match sk with
+    | [] => match is_unit_rid rid with None => Some rid | Some _ => None end
+    | (NOrig b, ARule r1) :: rest =>
+        match is_unit_rid rid with
+        | Some b' => if String.eqb b' b && String.eqb (origin r1) b then chainb r1 rest else None
+        | None => None
+        end
+    | _ => None
+    end.
+
+  Definition canonb (r : crule) : bool :=
+    match c_lhs r with
+    | NTerm t => crule_eqb r (term_rule t)
+                 && existsb (fun rid => tf_of rid && existsb (csym_eqb (CT t)) (exp_of rid)) (seq 0 (length rules))
+    | NSplit f i => Nat.ltb f (length rules) && Nat.leb 3 (length (e_of f))
+                    && existsb (crule_eqb r) (split_tail f 1 (tl (e_of f)))
+    | NOrig a =>
+        match c_alias r with
+        | ARule rid => match chainb rid (c_skipped r) with
+                       | Some f => String.eqb (origin rid) a && leqb csym_eqb (c_rhs r) (head_rhs f)
+                       | None => false
+                       end
+        | _ => false
+        end
+    end.
+
+  (* the unit rules are acyclic: longest unit chain from rid, strictly decreasing along unit edges *)
+  Fixpoint urank (fuel rid : nat) : nat :=
+    match fuel with
+    | 0 => 0
+    | S f => match is_unit_rid rid with
+             | None => 0
+             | Some b => S (fold_right (fun r1 m => if String.eqb (origin r1) b then Nat.max (urank f r1) m else m)
+                                       0 (seq 0 (length rules)))
+             end
+    end.
+
+  Definition unit_rank_ok : bool :=
+    let n := length rules in
+    forallb (fun rid => match is_unit_rid rid with
+                        | None => true
+                        | Some b => forallb (fun r1 => negb (String.eqb (origin r1) b) || Nat.ltb (urank n r1) (urank n rid))
+                                            (seq 0 n)
+                        end && Nat.leb (urank n rid) n) (seq 0 n).
+
+  (* evaluated per grammar: g consists of canonical rules, contains the enumerated ones, units acyclic *)
+  Definition closure_check (g : list crule) : bool :=
+    forallb canonb g && forallb (fun r => existsb (crule_eqb r) g) spec_cnf && unit_rank_ok.
 End Canon.
